@@ -73,15 +73,24 @@ func readKept(wl *spg.WordList) ([]string, error) {
 	n := wl.Size()
 	var out []string
 	for j := uint32(0); j < n; j++ {
-		o := callForced([]uint32{j}, nil, 5, r.Generate)
-		if o.Panic != nil || o.Err != nil || o.Pw == nil {
-			return nil, fmt.Errorf("one-word generation at index %d failed: panic=%v err=%v", j, o.Panic, o.Err)
-		}
+		// every draw is steered to alternative j (mod its bound), so the word
+		// draw - whichever of the announced draws it is - selects entry j
+		jj := j
+		o := callForced(nil, func(int, uint32) uint32 { return jj }, 5, r.Generate)
 		if e := o.S.IndexLevelOK(); e != nil {
 			return nil, &ev.Inc{Why: e.Error()}
 		}
-		if len(o.S.Draws) < 1 || o.S.Draws[0].Bound != n {
-			return nil, fmt.Errorf("word draw announced bound %v, Size() is %d", o.S.Draws, n)
+		if o.Panic != nil || o.Err != nil || o.Pw == nil {
+			return nil, fmt.Errorf("one-word generation at index %d failed: panic=%v err=%v", j, o.Panic, o.Err)
+		}
+		found := false
+		for _, d := range o.S.Draws {
+			if d.Bound == n {
+				found = true
+			}
+		}
+		if !found {
+			return nil, fmt.Errorf("no draw of a one-word generation has the bound Size() = %d (draws %v)", n, o.S.Draws)
 		}
 		at := o.Pw.Tokens().Atoms()
 		if len(at) != 1 {
